@@ -318,7 +318,7 @@ Definition oracle_c12 (c : case) : bool :=
 
 Definition oracle (c : case) : bool :=
   match c_prop c with
-  | 4 => oracle_c04 c | 5 => oracle_c05 c | 6 => oracle_c06 c | 7 => oracle_c07 c | 13 => oracle_c13 c
+  | 4 => oracle_c04 c | 5 => oracle_c05 c | 6 => oracle_c06 c && oracle_c12 c (* 'the next panic terminates it: MaxRestartsExceeded is published' is the event clause of C12 *) | 7 => oracle_c07 c | 13 => oracle_c13 c
   | 12 => oracle_c12 c
   | _ => oracle_c04 c && oracle_c05 c && oracle_c06 c && oracle_c07 c && oracle_c13 c && oracle_c12 c
   end.
